@@ -4,7 +4,7 @@ import pyprops, pybuild
 
 REQ = ["entry_calls", "inplace_entry_calls", "masked_argument_calls", "o2_elements_compared", "o3_length_mismatch_calls", "entries_dispatched_through_pool",
        "pool_dispatches", "pool_empty_ranges", "pool_single_elem_ranges", "pool_one_range", "pool_elementwise", "pool_reversed", "pool_threaded_dispatches",
-       "pool_concurrent_overlaps"]
+       "pool_concurrent_overlaps", "pool_installed_with_1_worker", "o3_unmasked_length_with_masked_argument", "o3_shorter"]
 
 
 def cref_build():
@@ -48,7 +48,7 @@ def run_property(pid, tier, seed, result):
             # real threads only; the quick-sized workload is enough to drive every dispatching entry point under TSan
             env["C20_MODES"] = "thr,thrd"
             t = "quick"
-        classes, extra = pyprops.run_workload(result, cfg, "c20_vec.py", t, seed, parts=16, timeout=10800 if tier == "thorough" else 3000, extra_env=env,
+        classes, extra = pyprops.run_workload(result, cfg, "c20_vec.py", t, seed, parts=16 if t == "quick" else 48, timeout=10800 if tier == "thorough" else 3000, extra_env=env,
                                               tsan_filter=_tsan_filter)
         if cfg != "tsan":
             pyprops.require_classes(result, "c20_vec.py[%s]" % cfg, classes, REQ)
